@@ -5,13 +5,13 @@ patch="$(realpath "$1")"; id="$2"; tier="${3:-quick}"
 cd /repo
 if ! git diff --quiet; then echo "/repo not clean"; exit 3; fi
 if ! git apply "$patch" 2>/dev/null; then
-  if ! git apply --3way "$patch" 2>/dev/null; then echo "PATCH DOES NOT APPLY"; git checkout -- . ; git reset -q; exit 3; fi
+  if ! git apply --3way "$patch" 2>/dev/null; then echo "PATCH DOES NOT APPLY"; git reset -q --hard HEAD; exit 3; fi
   git reset -q
 fi
 cd /verif
 VERIF_ROOT_SAVE=1 ./check "$id" --tier "$tier" 2>&1 | grep -v "^  " | tail -8
 rc=${PIPESTATUS[0]}
-git -C /repo checkout -- .
+git -C /repo reset -q --hard HEAD
 git -C /repo diff --quiet || echo "WARNING repo not clean after revert"
 # restore evidence produced on the unchanged tree
 git -C /verif checkout -- evidence 2>/dev/null
